@@ -42,7 +42,7 @@ def leaf_cases():
         for wrap in (0, 1):
             ty = t if not wrap else structgen.Ty("array", elem=t, n=3)
             wgsl = "struct L { v: %s }\n@group(0) @binding(0) var<storage, read_write> g: L;\n@compute @workgroup_size(1) fn main() {}\n" % ty.wgsl()
-            truth = [{"name": "L", "members": [("v", ty.shape())]}]
+            truth = [{"name": "L", "members": [("v", ty.shape())], "kinds": [ty.kind]}]
             for mv in ("Rust", "Glam", "Nalgebra"):
                 out.append({"wgsl": wgsl, "family": "leaf_table", "opts": {"mv": mv}, "truth": truth, "needs_encase": False,
                             "leaf": True})
@@ -51,7 +51,7 @@ def leaf_cases():
 
 def cases(rng, tier):
     out = leaf_cases()
-    out += structcases.cases(rng, tier, nbase={"quick": 120, "search": 300, "thorough": 800}[tier], allow_f64=True, allow_bool=True)
+    out += structcases.cases(rng, tier, nbase={"quick": 120, "search": 300, "thorough": 800}[tier], allow_f64=True, allow_bool=True, huge_arrays=True)
     return out
 
 
@@ -118,7 +118,8 @@ def behavioural(c, r):
         got = [(f["name"], f.get("type_name", "")) for f in st["fields"]]
         if [g[0] for g in got] != [m[0] for m in s_["members"]]:
             return False, "%s: fields %s, WGSL members %s" % (s_["name"], [g[0] for g in got], [m[0] for m in s_["members"]])
-        for (fn, tn), (mn, shape) in zip(got, s_["members"]):
+        kinds = s_.get("kinds") or [None] * len(s_["members"])
+        for (fn, tn), (mn, shape), kind in zip(got, s_["members"], kinds):
             try:
                 sh = shape_of_type_name(tn)
             except Exception:
@@ -127,7 +128,7 @@ def behavioural(c, r):
             kf_nonsq = bool(mm) and mm.group(1) != mm.group(2) and c["opts"].get("mv") != "Nalgebra"
             if sh != shape and not kf_nonsq:
                 return False, "%s.%s has Rust type %s (%s), the WGSL member has shape %s" % (s_["name"], fn, tn, sh, shape)
-            why = _repr_violation(c["opts"].get("mv", "Rust"), shape, tn)
+            why = _repr_violation(c["opts"].get("mv", "Rust"), shape, tn, kind)
             if why:
                 return False, "%s.%s: %s" % (s_["name"], fn, why)
     return True, ""
@@ -138,7 +139,7 @@ GLAM_MAT = re.compile(r"^\(SArr ([234])%N \(SArr \1%N \(SScalar (PF32|PF64)\)\)\
 ANY_VEC = re.compile(r"^\(SArr [234]%N \(SScalar \w+\)\)$")
 
 
-def _repr_violation(mv, shape, tn):
+def _repr_violation(mv, shape, tn, kind=None):
     """the leaf of a member's Rust type is written in the selected representation (coq/Spec/C06Repr.v, read off type_name);
     only decidable here for members that ARE a vector / square matrix (arrays of them are covered by the extracted output)"""
     if mv == "Rust" and ("glam::" in tn or "nalgebra::" in tn):
@@ -146,7 +147,8 @@ def _repr_violation(mv, shape, tn):
     if mv == "Glam":
         if "nalgebra::" in tn:
             return "glam selected, the field is %s" % tn
-        if (GLAM_VEC.match(shape) or GLAM_MAT.match(shape)) and not tn.startswith("glam::"):
+        # a shape does not tell `array<i32, 4>` from `vec4<i32>`: the rule is about members that ARE vectors / matrices
+        if kind in ("vec", "mat") and (GLAM_VEC.match(shape) or GLAM_MAT.match(shape)) and not tn.startswith("glam::"):
             return "glam selected and glam has a type of this shape, the field is %s" % tn
     if mv == "Nalgebra":
         if "glam::" in tn:
